@@ -103,6 +103,8 @@ structure Tables where
   simulateUsesOnlyCopy : Bool
   nondetSites : List NondetSite
   seedSeriesReuse : SeedReuse
+  /-- code shapes the extractor relies on and did not find -/
+  patternErrors : List String
   deriving Repr
 
 /-- table obligation: a saved daily seed series is re-used only if it has one entry per simulated day and
